@@ -170,6 +170,8 @@ func (cr *caseRun) armTargetFault() {
 type psyncObs struct {
 	CacheID    string
 	CacheRight int64 // -1: nothing cached
+	CacheLeft  int64
+	CacheRo    int64 // offset of the cached snapshot, -1 = none
 	PosAbsent  bool
 	Pos        int64
 }
@@ -177,13 +179,17 @@ type psyncObs struct {
 // psyncStamp is the source double's Stamp hook.
 func (cr *caseRun) psyncStamp() int64 {
 	st := cr.stamp()
-	o := psyncObs{CacheRight: -1}
+	o := psyncObs{CacheRight: -1, CacheLeft: -1, CacheRo: -1}
 	cr.mu.Lock()
 	cb := cr.curCache
 	cr.mu.Unlock()
 	if cb != nil {
 		if sp, err := cb.ch.StartPoint(nil); err == nil && sp.RunId != "" {
 			o.CacheID, o.CacheRight = sp.RunId, sp.Offset
+			o.CacheLeft, _ = cb.ch.GetOffsetRange(sp.RunId)
+			if ro, sz := cb.ch.GetRdb(sp.RunId); sz >= 0 {
+				o.CacheRo = ro
+			}
 		}
 	}
 	pos := readPosition(cr.tgt)
@@ -722,20 +728,49 @@ func clearPositionFields(tgt *fakeredis.Server) {
 	}
 }
 
-// cutBeforeSetCheckpoint arms the target double: the HSET with which a finished snapshot replay
-// stores its position is answered with an error instead of being executed, and the phase is told.
-func (cr *caseRun) cutBeforeSetCheckpoint() {
-	cr.abort = make(chan struct{})
-	snap, fired := false, false
+// cutSnapshotReplay arms the target double for the first session.
+// mode "setcp"  : the HSET with which a finished snapshot replay stores its position is answered
+//
+//	with an error instead of being executed; the phase is told (the tool is stopped);
+//
+// mode "restore": the same from the k-th RESTORE of the replay on (the replay is interrupted inside);
+// mode "loop"   : like "setcp", but the tool is left alone: the error lasts until the tool has given the run up and the
+//
+//	source has decided another PSYNC (the tool's own retry loop reconnects).
+func (cr *caseRun) cutSnapshotReplay(mode string, k int) {
+	if mode != "loop" {
+		cr.abort = make(chan struct{})
+	}
+	loopAt := int64(-1)
+	snap, fired, restores := false, false, 0
+	fire := func() {
+		if !fired && cr.abort != nil {
+			close(cr.abort)
+		}
+		fired = true
+	}
 	cr.tgt.SetHooks(nil, func(q *fakeredis.Req) (fakeredis.Reply, bool) {
 		switch {
 		case q.Cmd == "RESTORE":
 			snap = true
-		case snap && q.Cmd == "HSET" && len(q.Args) > 3 && string(q.Args[0]) == config.CheckpointKey:
-			if !fired {
-				fired = true
-				close(cr.abort)
+			restores++
+			switch {
+			case mode == "restore" && restores > k:
+				fire()
+				return fakeredis.Err("ERR verif: target unavailable"), true
 			}
+		case mode == "restore" && fired && len(q.Args) > 0 && string(q.Args[0]) == config.CheckpointKey && q.Conn >= 0:
+			return fakeredis.Err("ERR verif: target unavailable"), true
+		case mode == "loop" && snap && q.Cmd == "HSET" && len(q.Args) > 3 && string(q.Args[0]) == config.CheckpointKey:
+			if loopAt < 0 {
+				loopAt = cr.psyncN.Load()
+			}
+			if cr.psyncN.Load() == loopAt {
+				cr.faultErrors.Add(1)
+				return fakeredis.Err("ERR verif: target unavailable"), true
+			}
+		case mode == "setcp" && snap && q.Cmd == "HSET" && len(q.Args) > 3 && string(q.Args[0]) == config.CheckpointKey:
+			fire()
 			return fakeredis.Err("ERR verif: target unavailable"), true
 		}
 		return nil, false
